@@ -97,6 +97,7 @@ MUTANTS = [
     ("gmres_result_space", "bempp_cl/api/linalg/iterative_solvers.py", "res_fun = GridFunction(A.domain, coefficients=x.ravel())", "res_fun = GridFunction(A.range, coefficients=x.ravel())", 1, ["C15"]),
     ("lu_blocked_spaces", "bempp_cl/api/linalg/direct_solvers.py", "return grid_function_list_from_coefficients(sol, A.domain_spaces)", "return grid_function_list_from_coefficients(sol, A.range_spaces)", 0, ["C15"]),
     ("export_element_source", "bempp_cl/api/grid/io.py", "data = _transform_array(grid_function.evaluate_on_element_centers(), transformation).T", "data = _transform_array(grid_function.evaluate_on_vertices(), transformation).T", 0, ["C19"]),
+    ("export_complex_cell_block", "bempp_cl/api/grid/io.py", 'cell_data["imag"] = _np.array([_np.imag(data)])', 'cell_data["imag"] = _np.imag(data)', 0, ["C19"]),
     ("export_physical_tag", "bempp_cl/api/grid/io.py", 'cell_data["gmsh:physical"] = grid.domain_indices.astype("int32").reshape((1, -1))', 'cell_data["gmsh:physical"] = geom_indices.reshape((1, -1))', 0, ["C19"]),
     ("dense_reads_global", "bempp_cl/core/numba_assemblers.py", "    order = parameters.quadrature.regular\n    quad_points, quad_weights = rule(order)\n\n    # Perform Numba assembly always in double precision", "    import bempp_cl.api\n\n    order = bempp_cl.api.GLOBAL_PARAMETERS.quadrature.regular\n    quad_points, quad_weights = rule(order)\n\n    # Perform Numba assembly always in double precision", 0, ["C18", "C01"]),
     ("weak_form_no_memo", "bempp_cl/api/assembly/boundary_operator.py", "        if not self._cached:\n            self._cached = self._assemble()\n\n        return self._cached", "        self._cached = self._assemble()\n\n        return self._cached", 0, ["C18"]),
@@ -120,6 +121,7 @@ EQUIVALENTS = [
     ("eq_duffy_factor_order", "bempp_cl/api/integration/duffy_galerkin.py", "points_test[1, index] = xsi * (1.0 - eta1 + eta12)", "points_test[1, index] = (1.0 + eta12 - eta1) * xsi", 0, ["C12", "C01"]),
     ("eq_cl_commute", KH, "    factor1[0] = M_INV_4PI * cos(kernel_parameters[0] * dist) / (dist * dist * dist);\n    factor1[1] = M_INV_4PI * sin(kernel_parameters[0] * dist) / (dist * dist * dist);\n\n    factor2[0] = -M_ONE;\n    factor2[1] = kernel_parameters[0] * dist;\n\n    if (kernel_parameters[1] != M_ZERO) {\n        factor1[0] *= exp(-kernel_parameters[1] * dist);\n        factor1[1] *= exp(-kernel_parameters[1] * dist);\n\n        factor2[0] += -kernel_parameters[1] * dist;\n    }\n\n    product[0]", "    factor1[0] = cos(dist * kernel_parameters[0]) * M_INV_4PI / (dist * dist * dist);\n    factor1[1] = M_INV_4PI * sin(kernel_parameters[0] * dist) / (dist * dist * dist);\n\n    factor2[0] = -M_ONE;\n    factor2[1] = kernel_parameters[0] * dist;\n\n    if (kernel_parameters[1] != M_ZERO) {\n        factor1[0] *= exp(-kernel_parameters[1] * dist);\n        factor1[1] *= exp(-kernel_parameters[1] * dist);\n\n        factor2[0] += -kernel_parameters[1] * dist;\n    }\n\n    product[0]", 0, ["C20"]),
     ("eq_p1_table_float_form", "bempp_cl/api/space/scalar_spaces.py", "                [1.0, 1 / 2, 1 / 3],\n                [0.0, 1 / 3, 1 / 2],", "                [1, 0.5, 1.0 / 3],\n                [0, 1.0 / 3, 0.5],", 0, ["C10"]),
+    ("eq_export_rename", "bempp_cl/api/grid/io.py", "            data = _transform_array(grid_function.evaluate_on_vertices(), transformation).T\n            if _np.iscomplexobj(data):\n                point_data = {\"real\": _np.real(data), \"imag\": _np.imag(data)}", "            vals = grid_function.evaluate_on_vertices()\n            data = _transform_array(vals, transformation).T\n            if _np.iscomplexobj(data):\n                point_data = {\"imag\": _np.imag(data), \"real\": _np.real(data)}", 0, ["C19"]),
     ("eq_solver_temp", "bempp_cl/api/linalg/direct_solvers.py", "        vec = b.projections(A.dual_to_range)\n", "        dual = A.dual_to_range\n        vec = b.projections(dual)\n", 0, []),
     ("eq_sparse_support_commute", "bempp_cl/core/sparse_assembler.py", "support = domain.support * dual_to_range.support", "support = dual_to_range.support * domain.support", 0, ["C13", "C04"]),
     ("eq_potential_sum_order", NK, "                    grid_data.integration_elements[element]\n                    * quad_weights[quad_point_index]\n                    * fun_values[0, fun_index, quad_point_index]\n                    * x[number_of_shape_functions * element + fun_index]", "                    x[number_of_shape_functions * element + fun_index]\n                    * quad_weights[quad_point_index]\n                    * grid_data.integration_elements[element]\n                    * fun_values[0, fun_index, quad_point_index]", 0, ["C02", "C08", "C16"]),
